@@ -91,6 +91,33 @@ pub fn check_pair(old: &[u8], new: &[u8]) -> Result<(bool, u64, u64), String> {
             ops
         ));
     }
+    // the same input with old and new in different element types (equal items hash differently)
+    {
+        use crate::instr::{Hi, Lo};
+        let o: Vec<Lo> = old.iter().map(|&x| Lo(x as u32)).collect();
+        let nn: Vec<Hi> = new.iter().map(|&x| Hi(x as u64)).collect();
+        let hops = subject(|| similar::capture_diff(Algorithm::Patience, &o[..], 0..n, &nn[..], 0..m))
+            .map_err(|p| format!("heterogeneous element types: panic: {}", p))?;
+        let mut matched = 0;
+        for op in &hops {
+            if op.tag() == DiffTag::Equal {
+                for (i, j) in op.old_range().zip(op.new_range()) {
+                    if is_anchor(i, j) {
+                        matched += 1;
+                    }
+                }
+            }
+        }
+        if matched != l {
+            return Err(format!(
+                "with old items of type Lo(u32) and new items of type Hi(u64), captured Patience ops pair {} of the {} items that are unique on both sides; the longest in-order chain has {} [ops: {:?}]",
+                matched,
+                u.len(),
+                l,
+                hops
+            ));
+        }
+    }
     let mut fp = Fp::new();
     fp.add(ops_fp(&ops));
     fp.add(l as u64);
